@@ -20,9 +20,14 @@ TECHNIQUE = 'bounded-exhaustive enumeration: all windows/slices/indices x all fi
 LEVEL_TEXT = ('For each file of a finite family chosen around segment/chunk boundaries (incl. segments where the channel is '
               'absent or has no data, and truncated final chunks) all (offset,length), all slices with start/stop in '
               '[-L-2,L+2]|None and step in {None,+-1,+-2,+-3,0}, and all integers in [-L-2,L+1] are executed in lazy and eager '
-              'mode; the oracle is NumPy indexing of the full array.')
+              'mode; the oracle is NumPy indexing of the full array. Added families: timestamp files with raw_timestamps=True; '
+              'memmap_dir variants; segments complete by their own offsets whose data stops inside the last chunk in non-final position '
+              '(contiguous, interleaved, DAQmx, slow-before-fast channels); running totals coinciding with multiples (all (a,b,c) in 1..4); '
+              'long channels (70 000 values; 2.4 MB segments with numbered values) probed on a grid of stepped slices and around every '
+              'power of two up to 2^18; the error cases inside with-blocks.')
 LEVEL_NOTE = ('Trusted: NumPy indexing semantics and the full eager read as base (tied to the reference model by C01/C02 and '
-              're-checked here against it). Bounds: <=3 segments (4 with one gap in thorough), <=3 values x <=3 chunks per segment.')
+              're-checked here against it). Bounds of the exhaustive part: <=3 segments (4 with one gap in thorough), <=4 values x <=3 '
+              'chunks per segment; the long-channel part is a grid, not exhaustive.')
 ASSUMPTIONS = ['dtype of empty results is not judged here (C14)', 'negative offsets/lengths are outside the statement']
 
 STEPS = (None, 1, 2, 3, -1, -2, -3)
